@@ -121,6 +121,12 @@ def _arena_h():
             out.append((f, m.group(1), m.group(3), m.group(4)))
         for m in _re.finditer(r"#\[kani::proof\]\n(?:#\[kani::unwind\(\d+\)\]\n)?(?:#\[kani::should_panic\]\n)?pub\(crate\) fn (\w+)\(\) \{\n    (\w+)::<([^;]*?)>\(([^;]*?)\);", txt):
             out.append((f, m.group(1), m.group(2), m.group(3) + " | " + m.group(4)))
+        # rmatrix!( name: MIN_ALIGN, UP, Op, old, new; ... )  (h_realloc.rs, thorough)
+        for m in _re.finditer(r"^\s+(\w+_t): (\d+), (true|false), (Op::\w+), (\d+), (\d+)", txt, _re.M):
+            out.append((f, m.group(1), "ob_realloc", "LogAlloc, MIN_ALIGN=%s UP=%s, %s, old<=%s new<=%s" % (m.group(2), m.group(3), m.group(4), m.group(5), m.group(6))))
+        # matrix!( name: ob_fn, Alloc, MIN_ALIGN, UP, DEALLOCATES, (args); ... )
+        for m in _re.finditer(r"^\s+(\w+): (ob_\w+), ([\w<>]+), (\d+), (true|false), (true|false), \(([^)]*)\)", txt, _re.M):
+            out.append((f, m.group(1), m.group(2), "%s, MIN_ALIGN=%s UP=%s DEALLOCATES=%s, (%s)" % (m.group(3), m.group(4), m.group(5), m.group(6), m.group(7))))
     return out
 
 
@@ -207,6 +213,9 @@ _OB = {
     "ob_prepared_slice_dyn": (["C15", "C17", "C01"], ["traits::bump_allocator_typed::for_trait_object::{prepare_slice_allocation,allocate_prepared_slice,prepare_slice_allocation_rev,allocate_prepared_slice_rev}", "traits::BumpAllocatorCore::{prepare_allocation,allocate_prepared,prepare_allocation_rev,allocate_prepared_rev} (BumpScope)"],
                               "the same prepare/fill/commit contract as ob_prepared_slice through `dyn BumpAllocatorCore` (generic commit path); since both entry points satisfy the same functional postcondition they are interchangeable",
                               "one chunk of 48 bytes, T=u16, cap request <=3, len<=cap"),
+    "ob_overgrant": (["C05", "C10", "C12", "C01"], ["raw_bump::NonDummyChunk::{new,layout,deallocate}", "chunk::size::ChunkSize::align_allocation_size", "chunk::size_config::ChunkSizeConfig::align_size", "raw_bump::RawChunk::alloc", "raw_bump::RawBump::manually_drop"],
+                     "base allocator granting more than requested (a non-multiple of 16): constructors establish wf w.r.t. the grant-derived geometry, chunk size between requested and granted and uses the extra memory, alloc stays inside the content, stats coherent, every chunk released once with a fitting size (checked inside the allocator model)",
+                     "K<=3, over-grant 8/24/40 bytes"),
     "ob_second_claim_panics": (["C14"], ["raw_bump::RawBump::claim"], "a second claim does not return (panics)", "should_panic harness"),
     "ob_claim_guard": (["C14", "C10"], ["bump_claim_guard::BumpClaimGuard::{new,deref,deref_mut,drop}", "traits::BumpAllocatorScope::claim"],
                        "while the guard lives the original is claimed and fails; allocations through the guard stay live; a scope opened through the guard is fully undone; after drop the original is unclaimed and continues on a real chunk; wf",
@@ -221,7 +230,7 @@ for (_f, _name, _gen, _args) in _arena_h():
     if _gen not in _OB or _name.startswith("exp_"):
         continue
     _props, _fns, _text, _bound = _OB[_gen]
-    _thorough = (_f == "h_realloc" and (_name.endswith("_k2") or _name.endswith("_128"))) or _name in _THOROUGH
+    _thorough = (_f == "h_realloc" and (_name.endswith("_k2") or _name.endswith("_128") or _name.endswith("_t"))) or _name in _THOROUGH
     k("%s::%s" % (_f, _name), _props, _fns, "B", _text, tier=("thorough" if _thorough else "quick"), bound=_bound,
       timeout=(2400 if _thorough else (1800 if _gen == "ob_mut_vec" else 900)), inst=_args)
 
@@ -277,6 +286,11 @@ for _n, _p, _fns, _t in [
 ]:
     k("h_coll2::" + _n, _p, _fns, "B", _t, bound=_C2, timeout=1200)
 
+# BumpVec over a real arena (h_grow.rs): only the downward fresh-arena overflow obligation finishes (14 min); thorough tier
+k("h_grow::bump_vec_fresh_overflow_dn8", ["C07", "C08"], ["bump_vec::BumpVec::{new_in,try_push,try_reserve,generic_grow_amortized,generic_grow_to,drop}", "fixed_bump_vec::raw::RawFixedBumpVec::allocate", "allocator_impl::{allocate,grow,deallocate}"], "B",
+  "BumpVec<u16> over a fresh one-chunk arena, two pushes (symbolic values), then try_reserve of any amount whose byte size overflows: an error (no panic, no wrap), length / capacity / buffer address / contents unchanged; buffer is allocated memory; dropping reclaims at most its own buffer; wf",
+  tier="thorough", bound="fresh arena (one chunk of 48 bytes, downward, MIN_ALIGN 8), 2 pushes, reservation > isize::MAX/2 elements", timeout=2400)
+
 # strings (C09): concrete byte-length pattern of the characters, symbolic scalar values within each length class
 _SB = "text of <=2 characters with a concrete byte-length pattern [a,b] (a,b in 1..4), every scalar value of those lengths symbolic; every byte index enumerated; buffer of 8 bytes"
 _quick_pats = {"1_0", "4_0", "1_2", "2_3", "3_1", "4_4", "2_1", "3_4"}
@@ -302,6 +316,67 @@ for _l in (2, 3, 4):
     k("h_coll::from_utf8_len%d" % _l, ["C09"], ["bump_box::BumpBox<str>::from_utf8"], "B",
       "BumpBox::from_utf8 accepts exactly the byte strings core::str::from_utf8 accepts; the harness' own validator agrees with std",
       bound="all byte strings of length %d" % _l, timeout=900)
+
+
+# ----------------------------------------------------------------------------- growable collections against the arena's CONTRACT (h_stub.rs)
+# The real collection code (BumpVec / MutBumpVec / MutBumpVecRev) is the code under proof; the allocator is `StubBump`,
+# an executable statement of the allocator traits' contract (two regions = current chunk and a newer chunk, either
+# bump direction, requests refusable).  Every pointer / layout the collection hands back is checked by the stub.
+_STB = "contract stub instead of the arena (regions of 64 and 128 bytes, direction as instantiated, `used` bytes handed out before); element type u16 (drops: 1-byte token); number of elements concrete (2..5), element values symbolic; requested amounts symbolic over the full usize range where the operation takes one"
+_STUB_OPS = {
+    "op_reserve": ("try_reserve", "reserve over the FULL usize range: byte-size overflow is an error (no panic, no wrap); success gives capacity >= len + additional"),
+    "op_reserve_exact": ("try_reserve_exact", "reserve_exact over the FULL usize range: overflow is an error; success gives capacity >= len + additional"),
+    "op_push": ("try_push", "push that has to grow: served (in place or moved) or refused"),
+    "op_insert": ("try_insert", "insert at every index, growing"),
+    "op_extend": ("try_extend_from_slice_copy", "extend by a slice, growing"),
+    "op_extend_clone": ("try_extend_from_slice_clone", "extend by a slice (Clone path), growing"),
+    "op_resize": ("try_resize", "resize to any length 0..8 (growing or truncating)"),
+    "op_append": ("try_append", "append an owned array, growing"),
+    "op_extend_within": ("try_extend_from_within_copy", "extend from an own sub-range, growing"),
+    "mop_reserve": ("try_reserve", "reserve over the FULL usize range"),
+    "mop_reserve_exact": ("try_reserve_exact", "reserve_exact over the FULL usize range"),
+    "mop_push": ("try_push", "push on a full vector (moves to a newer region or is refused)"),
+    "mop_extend": ("try_extend_from_slice_copy", "extend a full vector by a slice (a reversed vector prepends it as a whole)"),
+    "mop_insert": ("try_insert", "insert in the middle of a full vector"),
+}
+
+
+def _stub_h():
+    import os as _os
+    here = _os.path.dirname(_os.path.dirname(_os.path.abspath(__file__)))
+    pth = _os.path.join(here, "kani", "incrate", "h_stub.rs")
+    if not _os.path.exists(pth):
+        return
+    txt = open(pth).read()
+    for m in _re.finditer(r"^    (stub_vec_\w+): (true|false), (\d+), (\d+), (true|false), (op_\w+);", txt, _re.M):
+        name, up, used, n, foreign, op = m.groups()
+        meth, what = _STUB_OPS[op]
+        k("h_stub::" + name, ["C07", "C08", "C01", "C13"], ["bump_vec::BumpVec::{new_in,try_push,%s,generic_grow_amortized,generic_grow_to,generic_reserve,drop}" % meth, "fixed_bump_vec::raw::RawFixedBumpVec::allocate"], "B",
+          "BumpVec<u16>: %s; a refused request leaves length, capacity, buffer address and contents unchanged (C07); otherwise same contents as the model (C08); the buffer is a live aligned block and every grow/deallocate call gets a live block with a consistent layout (C01, checked inside the stub); drop reclaims at most the vector's own buffer (C13)%s" % (what, "; another block is handed out after the buffer, so growth moves it and nothing is reclaimed" if foreign == "true" else ""),
+          bound=_STB, timeout=900, inst="UP=%s used=%s n=%s foreign=%s" % (up, used, n, foreign))
+    _conv = {"0": ("shrink_to_fit", ["C08", "C13", "C02", "C01"]), "1": ("shrink_to", ["C08", "C02", "C01"]), "2": ("into_boxed_slice", ["C08", "C01", "C13"]), "3": ("into_fixed_vec", ["C08", "C01"]),
+             "4": ("split_off", ["C16", "C01", "C08"]), "5": ("into_iter", ["C08", "C01"])}
+    for m in _re.finditer(r"^    (stub_conv_\w+): (true|false), (\d+), (\d+), (\d+), (true|false), (\d);", txt, _re.M):
+        name, up, used, n, spare, foreign, op = m.groups()
+        meth, props = _conv[op]
+        k("h_stub::" + name, props, ["bump_vec::BumpVec::{try_with_capacity_in,try_push,%s,drop}" % meth], "B",
+          "BumpVec<u16> with spare capacity: %s keeps length and contents, capacity between len and the old capacity, result is a live aligned block; shrinking the newest block reclaims, any other block reclaims nothing; split_off halves are separate live disjoint vectors that can be dropped in either order; pointers handed to shrink/deallocate are live blocks (checked inside the stub)" % meth,
+          bound=_STB, timeout=900, inst="UP=%s used=%s n=%s spare=%s foreign=%s" % (up, used, n, spare, foreign))
+    for m in _re.finditer(r"pub\(crate\) fn (stub_vec_drops_\w+)\(\)", txt):
+        k("h_stub::" + m.group(1), ["C06", "C07", "C08"], ["bump_vec::BumpVec::{try_with_capacity_in,try_push,remove,drop,generic_grow_amortized}"], "B",
+          "BumpVec of drop-counting tokens across growth: a moved buffer drops nothing, a refused push drops exactly the rejected value, a removed value stays alive until the caller drops it, at the end every token is dropped exactly once",
+          bound=_STB, timeout=900)
+    for m in _re.finditer(r"^    (stub_mut_vec_\w+): (true|false), (MutBumpVec(?:Rev)?), (\d+), (\d+), (\d), (mop_\w+);", txt, _re.M):
+        name, up, ty, used, n, mode, op = m.groups()
+        meth, what = _STUB_OPS[op]
+        mod = "mut_bump_vec::MutBumpVec" if ty == "MutBumpVec" else "mut_bump_vec_rev::MutBumpVecRev"
+        k("h_stub::" + name, ["C07", "C08", "C17"], [mod + "::{new_in,try_push,%s,generic_grow_amortized,generic_grow_to,into_boxed_slice,into_slice_ptr}" % meth], "B",
+          "%s<u16> over the exclusive allocator contract: %s; %s; then into_boxed_slice: the committed slice has the model's contents in slice order, is a live aligned block, committed bytes are accounted; commits stay inside the prepared region with len <= cap (checked inside the stub)"
+          % (ty, what, ["requests are served", "every request for new memory is refused: length, capacity, contents unchanged", "a new region (chunk) is refused: length, capacity, contents unchanged"][int(mode)]),
+          bound=_STB, timeout=900, inst="UP=%s used=%s n=%s mode=%s" % (up, used, n, mode))
+
+
+_stub_h()
 
 
 def for_property(pid, tier):
